@@ -291,7 +291,8 @@ class World:
             if n == 'searchTable':
                 return self.search(m, c)
             if n == 'isInstalledFunction':
-                return 0
+                # the function table is C02-R10's business: id and key are installed, nothing else is assumed
+                return int(m.ev(c['args'][0]) in ('id', 'key'))
             if n in ('toDouble',):
                 return 0.0
             if n in ('NumberToDOMString',):
@@ -651,4 +652,162 @@ def run_rule(res, facts, tier):
         else:
             r.instances += 1
     r.note('%d token sequences (%d accepted); interpreted: %s' % (len(inputs), n_acc, sorted(w.interpreted)))
+    return r
+
+
+# ------------------------------------------------------------------------------------------------------------------ match patterns (XSLT 1.0 5.2)
+class PatRef(Ref):
+    def accept(self):
+        try:
+            self.pattern()
+            return self.i == len(self.t)
+        except Reject:
+            return False
+
+    def pattern(self):
+        self.lpp()
+        while self.tok() == '|':
+            self.i += 1
+            self.lpp()
+
+    def lpp(self):
+        t, k = self.tok(), self.kind()
+        if k == 'FUNC' and t in ('id', 'key'):
+            self.i += 1
+            self.need('(')
+            if self.kind() == 'LIT':
+                self.i += 1
+                while self.tok() == ',':
+                    self.i += 1
+                    if self.kind() != 'LIT':
+                        raise Reject('literal argument')
+                    self.i += 1
+            self.need(')')
+            if self.tok() == '/':
+                self.i += 1
+                if self.tok() == '/':
+                    self.i += 1
+                self.rpp()
+            return
+        if t == '/':
+            self.i += 1
+            if self.tok() == '/':
+                self.i += 1
+                self.rpp()
+            elif self.starts_pstep():
+                self.rpp()
+            return
+        self.rpp()
+
+    def starts_pstep(self):
+        t, k = self.tok(), self.kind()
+        return t == '@' or k in ('STAR', 'NAME', 'AXIS', 'NODETYPE')
+
+    def rpp(self):
+        self.pstep()
+        while self.tok() == '/':
+            self.i += 1
+            if self.tok() == '/':
+                self.i += 1
+            self.pstep()
+
+    def pstep(self):
+        t, k = self.tok(), self.kind()
+        if k == 'AXIS':
+            if t not in ('child', 'attribute'):
+                raise Reject('axis')
+            self.i += 1
+            self.need('::')
+        elif t == '@':
+            self.i += 1
+        self.nodetest()
+        while self.tok() == '[':
+            self.predicate()
+
+
+PALPHABET = ['/', '|', '(', ')', '[', ']', '.', '@', '*', 'a', '1', "'s'", ',', '::', 'child', 'attribute', 'parent', 'text', 'id', 'key', '=', '$']
+
+
+def pattern_sentences(maxlen):
+    steps = [['a'], ['*'], ['@', 'a'], ['@', '*'], ['child', '::', 'a'], ['attribute', '::', 'a'], ['text', '(', ')'], ['a', '[', '1', ']'], ['a', '[', '@', 'a', ']'], ['child', '::', 'text', '(', ')']]
+    rel = [list(s) for s in steps]
+    for s1, s2 in itertools.product(steps[:6], steps[:6]):
+        rel.append(s1 + ['/'] + s2)
+        rel.append(s1 + ['/', '/'] + s2)
+    idk = [['id', '(', "'s'", ')'], ['key', '(', "'s'", ',', "'s'", ')']]
+    pats = [['/']] + rel + [['/'] + r for r in rel] + [['/', '/'] + r for r in rel[:12]] + idk
+    for f in idk:
+        for r in rel[:4]:
+            pats.append(f + ['/'] + r)
+            pats.append(f + ['/', '/'] + r)
+    small = [['a'], ['/'], ['*'], ['@', 'a'], ['/', 'a'], ['/', '/', 'a'], ['text', '(', ')'], ['id', '(', "'s'", ')']]
+    for l, r2 in itertools.product(small, small):
+        pats.append(l + ['|'] + r2)
+    seen = set(); res = []
+    for s in pats:
+        if len(s) <= maxlen and tuple(s) not in seen:
+            seen.add(tuple(s)); res.append(s)
+    return res
+
+
+def run_pattern_rule(res, facts, tier):
+    r = res.rule('C09-R8', 'the pattern parser by interpretation: XPathProcessorImpl::Pattern and the productions below it run on sentences of the XSLT 1.0 pattern grammar (bounded) '
+                 'and on every sequence one token away from a short one; accepted with all tokens consumed exactly when the reference recognizer for XSLT 1.0 5.2 accepts '
+                 '(the number of arguments of id() / key() is not decided here)', floor=1500)
+    a = [x for x in facts.asts('XPathProcessorImpl::Pattern', must=False) if x.get('body') is not None]
+    nt = [x for x in facts.asts('XPathProcessorImpl::nextToken', must=False) if x.get('body') is not None]
+    if len(a) != 1 or len(nt) != 1:
+        raise AnalysisBroken('XPathProcessorImpl::Pattern / nextToken: %d / %d bodies' % (len(a), len(nt)))
+    a, nt = a[0], nt[0]
+    w = World(facts)
+    base = pattern_sentences(10 if tier == 'thorough' else 9)
+    inputs, seen = [], set()
+    for s in base:
+        seen.add(tuple(s)); inputs.append(s)
+    stride = 1 if tier == 'thorough' else 5
+    cnt = 0
+    for s in base:
+        if len(s) > (6 if tier == 'thorough' else 5):
+            continue
+        for mt in mutations(s, PALPHABET):
+            cnt += 1
+            if cnt % stride:
+                continue
+            if mt and tuple(mt) not in seen and len(seen) < (50000 if tier == 'thorough' else 5000):
+                seen.add(tuple(mt)); inputs.append(mt)
+    reported = {}
+    n_acc = 0
+    for toks in inputs:
+        want = PatRef(list(toks)).accept()
+        w.tokens = list(toks); w.pos = 0; w.steps = 0; w.depth = 0
+        env = {'.m_token': '', '.m_tokenChar': 0, '.m_expression': 'EXPR', '.m_xpath': 'XPATH', '.m_constructionContext': 'CCTX', '.m_prefixResolver': 'RES', '.m_locator': 0,
+               '.m_isMatchPattern': 1, '.m_requireLiterals': 0, '.m_allowVariableReferences': 1, '.m_allowKeyFunction': 1, '.m_positionPredicateStack': PVec(), '.m_namespaces': PVec()}
+        m = PMach(w, env)
+        site = ' '.join(toks)
+        try:
+            try:
+                w.call_this(m, nt, {'args': []})
+                w.call_this(m, a, {'args': []})
+                got = m.env['.m_token'] == ''
+                why = 'tokens left: %s' % m.env['.m_token'] if not got else ''
+            except Reject as x:
+                got, why = False, str(x)
+        except Unsupported as u:
+            msg = str(u)
+            if 'does not terminate' in msg or 'assertion fails' in msg or 'pop_back' in msg:
+                got, why = None, msg
+            else:
+                raise AnalysisBroken('XPathProcessorImpl outside the interpreted subset on pattern "%s": %s' % (site, u))
+        if got is want:
+            r.ok(site, 'accepted' if got else 'rejected')
+            n_acc += int(bool(got))
+            continue
+        kind = 'valid pattern rejected' if want else ('not a pattern, accepted' if got else 'parser fault')
+        reported[kind] = reported.get(kind, 0) + 1
+        if reported[kind] <= 4:
+            r.violation('%s: %s' % (kind, site), 'XSLT 1.0 5.2 %s this token sequence; the parser %s' % (
+                'derives' if want else 'does not derive', 'accepts it' if got else ('rejects it (%s)' % why if got is False else 'fails: %s' % why)), common.file_line(a))
+        else:
+            r.instances += 1
+    r.note('%d token sequences (%d accepted)' % (len(inputs), n_acc))
     return r
